@@ -1,0 +1,17 @@
+//go:build verif
+// +build verif
+
+package bmtree
+
+// Verification hooks. Compiled only with `-tags verif`; the shipped behaviour
+// is unchanged without the tag.
+
+// VerifTableWords returns a flattened copy of the index-to-path lookup table.
+func VerifTableWords() []uint64 {
+	r := make([]uint64, 0, 32)
+	for _, row := range idxToPath {
+		r = append(r, uint64(len(row)))
+		r = append(r, row...)
+	}
+	return r
+}
